@@ -55,10 +55,10 @@ def gen_cases(tier, seed):
             kw['mode'] = 'kanji'
         cases.append(common.mk(bytes(data), tag='sjis-string', **kw))
     # class strings x requested mode x version class
-    classes = ['digits', 'alnum', 'ascii', 'latin1', 'kana', 'sjis_bytes', 'hanzi', 'bytes', 'int', 'utf8']
+    classes = ['digits', 'alnum', 'ascii', 'latin1', 'kana', 'sjis_bytes', 'hanzi', 'bytes', 'int', 'utf8', 'upper', 'latin1_jis', 'cp932_only']
     for _ in range(1500 if tier == 'quick' else 20000):
         cls = rng.choice(classes)
-        content = gen.content_of(rng, cls, rng.randint(1, 14))
+        content = gen.content_of(rng, cls, rng.choice([rng.randint(1, 14), rng.randint(1, 14), rng.randint(15, 120)]))
         kw = {}
         r = rng.random()
         if r < 0.75:
